@@ -326,11 +326,94 @@ u_cfg(uint64_t idx, void *arg)
                   rt_bits(c.type, c.lo), rt_bits(c.type, c.hi));
 }
 
+/* tables with other register counts, above all none at all (a description may consist of areas only): every handle
+ * is "not a register of the table" there, the first one included */
+static void
+u_counts(uint64_t idx, void *arg)
+{
+    (void)arg;
+    static const int counts[] = { 0, 1, 2, 7 };
+    const int n = counts[idx % 4], be = (int)(idx / 4) % 2, custom = (int)(idx / 8) % 2, nareas = 1 + (int)(idx / 16) % 2;
+    vh_arena_reset();
+    struct rt_desc d;
+    memset(&d, 0, sizeof d);
+    d.nareas = nareas;
+    d.bigendian = be;
+    for (int i = 0; i < nareas; i++) {
+        d.area[i].base = i ? 0x40 : 0;
+        d.area[i].size = 8;
+        d.area[i].readable = d.area[i].writeable = 1;
+        d.area[i].custom = custom;
+        d.area[i].has_write = 1;
+    }
+    d.nregs = n;
+    for (int i = 0; i < n; i++) {
+        d.reg[i].type = REG_TYPE_UINT16;
+        d.reg[i].addr = (uint32_t)i;
+        d.reg[i].def.u16 = (uint16_t)(0x1001 * (i + 1));
+    }
+    rt_build_mode = (int)(idx / 32) % 2;
+    rt_build(&inst, &d);
+    rt_build_mode = -1;
+    char key[96];
+    snprintf(key, sizeof key, "registers=%d order=%s backing=%s", n, be ? "be" : "le", custom ? "callback" : "memory");
+    RegisterInit ri = register_init(&inst.t);
+    if (ri.code != REG_INIT_SUCCESS) {
+        vh_fail("init", key, "table with %d registers in %d areas: code=%d pos=%u", n, nareas, ri.code, ri.pos.entry);
+        return;
+    }
+    rt_model_init(&inst);
+    rt_compare_storage(&inst, "init-storage", key, "after init");
+    rt_sync_model_from_storage(&inst);
+    const RegisterHandle bad[] = { (RegisterHandle)n, (RegisterHandle)n + 1, (RegisterHandle)n + 2, 8, 16, 0xff, 0x100, 0xffff,
+                                   0x10000u, 0x10000u + (RegisterHandle)n, 0x7fffffffu, 0x80000000u, UINT32_MAX - 1, UINT32_MAX };
+    for (size_t i = 0; i < sizeof bad / sizeof bad[0]; i++) {
+        VH_CASE4(idx, n, i, 0);
+        for (int t = 0; t < 8; t++) {
+            RegisterValue v = { .type = (RegisterType)t, .value = rt_from_bits(t, 1) };
+            RegisterAccess a = register_set(&inst.t, bad[i], v);
+            if (a.code != REG_ACCESS_NOENTRY)
+                vh_fail("bad-handle", "api=register_set", "handle=%u value type %s (table has %d registers): code=%d", bad[i],
+                        rt_tname[t], n, a.code);
+            nset++;
+        }
+        RegisterValue v = { .type = REG_TYPE_UINT16, .value.u16 = 0x4242 };
+        RegisterAccess a = register_set_unsafe(&inst.t, bad[i], v);
+        if (a.code != REG_ACCESS_NOENTRY)
+            vh_fail("bad-handle", "api=register_set_unsafe", "handle=%u (table has %d registers): code=%d", bad[i], n, a.code);
+        RegisterValue g;
+        a = register_get(&inst.t, bad[i], &g);
+        if (a.code == REG_ACCESS_SUCCESS)
+            vh_fail("bad-handle-get", key, "handle=%u (table has %d registers): code=%d", bad[i], n, a.code);
+        char ctx[48];
+        snprintf(ctx, sizeof ctx, "handle=%u", bad[i]);
+        if (!rt_compare_storage(&inst, "bad-handle-changes-storage", key, ctx))
+            rt_sync_model_from_storage(&inst);
+        vh_countf("bad handle probed on a table with %s", n == 0 ? "no registers" : n == 1 ? "one register" : "several registers");
+    }
+    /* and the registers that are there work */
+    for (int i = 0; i < n; i++) {
+        RegisterValue v = { .type = REG_TYPE_UINT16, .value.u16 = (uint16_t)(0xa000 + i) }, g;
+        RegisterAccess a = register_set(&inst.t, (RegisterHandle)i, v);
+        RegisterAccess b = register_get(&inst.t, (RegisterHandle)i, &g);
+        if (a.code != REG_ACCESS_SUCCESS || b.code != REG_ACCESS_SUCCESS || g.type != REG_TYPE_UINT16 || g.value.u16 != v.value.u16)
+            vh_fail("round-trip", key, "register %d of %d: set code=%d get code=%d value=%04x", i, n, a.code, b.code, g.value.u16);
+        rt_encode(REG_TYPE_UINT16, be, v.value.u16, rt_model_word(&inst, (uint32_t)i));
+        rt_compare_storage(&inst, "storage", key, "after set");
+        nset++;
+    }
+    vh_sig(0x01c00000ull ^ idx);
+}
+
 void
 harness_run(void)
 {
     for (uint64_t i = 0; i < 32 * 13; i++)
         vh_unit("cfg", i, u_cfg, NULL);
+    for (uint64_t i = 0; i < 64; i++)
+        vh_unit("counts", i, u_counts, NULL);
+    vh_require("bad handle probed on a table with no registers");
+    vh_require("bad handle probed on a table with one register");
     static const char *req[] = { "checked set accepted", "unchecked set stored", "constraint violation refused",
                                  "non-finite float refused", "bad handle probed", "type mismatch refused",
                                  "16-bit register: all 65536 values",
